@@ -130,8 +130,9 @@ func expect(c *conn, k cmd) (class string, admitted bool, next conn) {
 	}
 	switch k.Class {
 	case "starttls":
-		next.state = stClosed
-		return "NONE", false, next
+		// no TLS configuration: a tagged NO (the connection stays as it is); the property does not speak about
+		// STARTTLS, so the older behaviour (connection ended without an answer) is accepted as well, see step()
+		return "NO", false, next
 	case "logout":
 		next.state = stClosed
 		return "BYE", false, next
@@ -297,6 +298,9 @@ func (x *hs) step(c *conn, k cmd, scen string) (admitted bool, wasUser int) {
 	res.Count("state:" + before)
 	res.Count("class:" + k.Class)
 	res.Nontrivial(fmt.Sprintf("%s/%s/%s", before, k.K, want))
+	if k.Class == "starttls" && got == "NONE" && c.state != stClosed {
+		want, next.state = "NONE", stClosed
+	}
 	if got != want {
 		res.Fail(fmt.Sprintf("%s expected=%s observed=%s", canon, want, got),
 			fmt.Sprintf("connection in state %s sent %q: answer class %s (%s), the reference expects %s; scenario %s: %s", before, k.Line, got, r.Text, want, scen, strings.Join(x.log, " | ")),
